@@ -5,7 +5,7 @@ package nflogpb
 // Contracts for govc (contract-based deductive verification). Comment-only file.
 
 //@ func isSubset
-//@   props C04
+//@   props C04 C05
 //@   ensures result == (forall k uint64 :: k in subset ==> k in set)
 //@   loop 1 invariant forall k uint64 :: k in visited ==> k in set
 //@   pure
@@ -13,7 +13,7 @@ package nflogpb
 //@ spec elemOf(k uint64, s []uint64) bool = exists i int :: 0 <= i && i < len(s) && s[i] == k
 
 //@ func (*Entry).IsFiringSubset
-//@   props C04
+//@   props C04 C05
 //@   requires m != nil
 //@   ensures result == (forall k uint64 :: k in subset ==> elemOf(k, m.FiringAlerts))
 //@   loop 1 invariant forall k uint64 :: k in set <==> (exists j int :: 0 <= j && j <= rangeindex && m.FiringAlerts[j] == k)
@@ -21,7 +21,7 @@ package nflogpb
 //@   assigns nothing
 
 //@ func (*Entry).IsResolvedSubset
-//@   props C04
+//@   props C04 C05
 //@   requires m != nil
 //@   ensures result == (forall k uint64 :: k in subset ==> elemOf(k, m.ResolvedAlerts))
 //@   loop 1 invariant forall k uint64 :: k in set <==> (exists j int :: 0 <= j && j <= rangeindex && m.ResolvedAlerts[j] == k)
